@@ -175,7 +175,16 @@ def check(run):
         if len(rets) == 1 and mk:
             mname = norm(mk[0].targets[0])
             txt = norm(rets[0]).replace(' ', '')
-            run.check(txt == 'PauliPolynomial(gs[%s]).set_cs(cs[%s])' % (mname, mname), 'R6.reduce', rd, rets[0],
+            ok_ret = txt == 'PauliPolynomial(gs[%s]).set_cs(cs[%s])' % (mname, mname)
+            if not ok_ret and isinstance(rets[0], ast.Name):
+                # the same object built in steps: X = PauliPolynomial(gs[m]) ; X.cs = cs[m] (or X.set_cs(cs[m])) ; return X
+                X = rets[0].id
+                ctor = [s2.value for s2, _ in walk(rd.node) if isinstance(s2, ast.Assign) and norm(s2.targets[0]) == X]
+                setc = [norm(s2.value).replace(' ', '') for s2, _ in walk(rd.node) if isinstance(s2, ast.Assign) and norm(s2.targets[0]) == X + '.cs']
+                setc += [norm(s2.value.args[0]).replace(' ', '') for s2, _ in walk(rd.node) if isinstance(s2, ast.Expr) and isinstance(s2.value, ast.Call)
+                         and norm(s2.value.func) == X + '.set_cs' and len(s2.value.args) == 1]
+                ok_ret = len(ctor) == 1 and norm(ctor[0]).replace(' ', '') == 'PauliPolynomial(gs[%s])' % mname and setc == ['cs[%s]' % mname]
+            run.check(ok_ret, 'R6.reduce', rd, rets[0],
                       'strings and merged coefficients are kept with the same mask and the phases are zero (they moved into cs)')
         # aggregate kernel
         agf = repo.func(urel, 'aggregate')
